@@ -20,7 +20,7 @@ enum Seg {
     Nl,
 }
 
-const TEMPLATES: [&[Seg]; 7] = [
+const TEMPLATES: [&[Seg]; 9] = [
     &[Seg::Prefix, Seg::Lit("|"), Seg::Msg],
     &[Seg::Lit("a\tb "), Seg::Msg, Seg::Lit("\t|"), Seg::Prefix],
     &[Seg::Lit("{\t"), Seg::Msg],
@@ -28,6 +28,9 @@ const TEMPLATES: [&[Seg]; 7] = [
     &[Seg::Lit("\t"), Seg::Ck2, Seg::Lit("\t\t"), Seg::MsgW(9, Align::Right), Seg::Lit(";")],
     &[Seg::Msg, Seg::Nl, Seg::Lit("\tline2 "), Seg::Prefix],
     &[Seg::Lit("no tabs "), Seg::Msg, Seg::Lit(" "), Seg::Ck2],
+    // every literal with a tab ends at a line break
+    &[Seg::Lit("step\tone:"), Seg::Nl, Seg::Prefix, Seg::Lit("|"), Seg::Msg],
+    &[Seg::Lit("a\tb"), Seg::Nl, Seg::Lit("\tc"), Seg::Nl, Seg::Msg, Seg::Lit("/"), Seg::Prefix],
 ];
 
 fn template_string(t: &[Seg]) -> String {
@@ -452,7 +455,7 @@ pub fn property() -> Property {
         ],
         parts: vec![Box::new(Gen::<TabCase> {
             name: "history",
-            rule: "0-14 (thorough 30) ops from set_tab_width/with_tab_width (0..=16), set_style/with_style/style().template() re-set over 7 templates (tabs in literals, '{'+TAB, custom keys writing tabs in one and in several writes), set/with message/prefix with 0-5 tabs, finish_with_message/abandon_with_message/reset/tick, optional final drop with ProgressFinish::WithMessage; after every op: no TAB in any terminal write, painted lines == model with tabs -> current width, message()/prefix() == expanded; non-trivial = a width change after a text with a tab was set",
+            rule: "0-14 (thorough 30) ops from set_tab_width/with_tab_width (0..=16), set_style/with_style/style().template() re-set over 9 templates (tabs in literals, tab literals ending at a line break, '{'+TAB, custom keys writing tabs in one and in several writes), set/with message/prefix with 0-5 tabs, finish_with_message/abandon_with_message/reset/tick, optional final drop with ProgressFinish::WithMessage; after every op: no TAB in any terminal write, painted lines == model with tabs -> current width, message()/prefix() == expanded; non-trivial = a width change after a text with a tab was set",
             strategy: case_strategy,
             cases: |t| t.pick(30_000, 1_200_000),
             run: run_tabs,
